@@ -40,6 +40,7 @@ func main() {
 	// + the K4 schedule tie cases
 	first := fixedScenarios(f)
 	first = append(first, schedScenarios(f)...)
+	first = append(first, raceScenarios(f)...)
 	outs := runAll(f, first, f.N(4, 8))
 	points := map[string]int{}
 	for i, o := range outs {
@@ -86,7 +87,7 @@ func newAgg(res *lib.Result) *agg {
 	a.mons[monShutdown] = res.Monitor(monShutdown,
 		"real pkg/resource + minibus under scenarios (0-8 subscribers, backpressure on/off, updates-only, PullID; consumers drain / stop after k / never receive; cancel before subscribe, at the n-th occurrence of every yield point, at random instants, at the end; 0-3 writers): after the cancel the consumer sees close within the bound; writers return once every non-receiving subscriber is cancelled; a write issued after a subscription ended returns; PullID closes after its item is removed; the goroutine census (runtime.Stack filtered to pkg/resource + internal/minibus frames) returns to empty; no panic (recovered or process-killing). non-trivial = at least one subscriber; distinct = distinct check x subscription class x consumer/cancel mode")
 	a.mons[monDelivery] = res.Monitor(monDelivery,
-		"oracle: per-writer list of the writes that succeeded. A backpressure subscriber subscribed before the writers start, receiving throughout and not cancelled until they finished must receive each writer's events exactly once in that writer's order; every other subscriber must see strictly increasing sequence numbers per writer (no duplicate, no reordering). non-trivial = at least one event expected/received")
+		"oracle: per-writer list of the writes that succeeded. Bus level (free-running, no yield points): rounds with 300-12000 already-cancelled listeners so that the next Send collects, 4-12 goroutines subscribing while 1-2 Sends run, then a sentinel Send: every listener whose Listen returned before the sentinel Send began must receive it exactly once. Resource level: a backpressure subscriber subscribed before the writers start, receiving throughout and not cancelled until they finished must receive each writer's events exactly once in that writer's order; every other subscriber must see strictly increasing sequence numbers per writer (no duplicate, no reordering). non-trivial = at least one event expected/received")
 	return a
 }
 
@@ -170,6 +171,8 @@ func worker(f lib.Flags) {
 					// (each disagreement can cost a full quiescence bound); the monitors keep running
 					o.count("tie:skipped-after-3-disagreements")
 				}
+			case "race":
+				o = runRace(req.Sc)
 			default:
 				o = runStress(req.Sc)
 			}
@@ -312,7 +315,7 @@ func replay(f lib.Flags) int {
 	}
 	b, _ := json.Marshal(rp.Input)
 	var sc Scenario
-	if rp.Input == nil || json.Unmarshal(b, &sc) != nil || sc.Res == "" && sc.Sched == nil {
+	if rp.Input == nil || json.Unmarshal(b, &sc) != nil || sc.Res == "" && sc.Sched == nil && sc.Race == nil {
 		fmt.Println("replay: no concrete input in file (", rp.Kind, rp.Broken, ")")
 		return 2
 	}
